@@ -177,7 +177,18 @@ PROPS["C19"] = {
     "assumptions": ["go1.26.8 net/http"],
 }
 
+PROPS["C12"] = {
+    "test": "TestC12", "level": "fault_enumeration", "registered": True, "engine": "sim+binary", "need_bin": True,
+    "shards_quick": 8, "shards_thorough": 16, "timeout": 1200,
+    "technique": "crash-point enumeration: bytes on disk at every hooked step boundary restored into a fresh router (virtual time), real SIGKILL of the binary at hook points, and hook-free SIGKILL injected by strace at the state-file syscalls; currency check after sequential and overlapping commands",
+    "level_text": "Part A: for every command of random histories the state file's bytes are captured at every snapshot / deploy / gate hook (what SIGKILL at that step boundary would leave), restored into a fresh router and compared, as an observable configuration, with the configuration before and after the command: it must be one of the two, and after the command returned it must be the one then in force; pairs of commands on different services run concurrently with their snapshot steps interleaved by per-occurrence hook delays and the file must be current once both returned. Part B: the real binary (built with the repository's toolchain and -tags verif) kills itself with SIGKILL at a chosen hook point during each kind of command; after a restart `list` and the parsed state file must equal the reference universe's pre or post state. Part C: the untagged binary is run under strace, which delivers SIGKILL at the first write to the state file or to its temporary file, at the first rename, at the first fsync.",
+    "level_note": "Trusted: hook placement at the step boundaries of the snapshot writer; the writer has no user-space buffering, so bytes read at a hook are what a kill there leaves in the page cache; power loss (data not yet on stable storage) is outside what SIGKILL exercises. strace's when=1 counts per thread: only the first matching syscall after a fresh start is used.",
+    "rule": "classes: (part, command kind, crash point or syscall, file observed as pre or post); non-trivial = crash point of a command whose pre and post configurations differ (sim) / a real crash injection",
+    "assumptions": ["strace and ptrace are available in the sandbox (otherwise part C is reported inconclusive)"],
+}
+
 ENGINES = [
+    {"name": "sim+binary", "path": "/verif/harness (c12_test.go, c20_test.go, procs_test.go)", "kind_free_text": "the real kamal-proxy binary built from the working tree with the repository's own toolchain, run with scratch HOME/XDG_RUNTIME_DIR against real HTTP targets; SIGKILL at hook points (VERIF_CRASH) or injected by strace; CLI driven as a user would", "serves_properties": ["C12", "C20"]},
     {"name": "sim", "path": "/verif/harness (world_test.go)", "kind_free_text": "real internal/server code in a testing/synctest bubble (virtual time) on an in-memory network with scripted fake targets and hook-placed delays; monitors judge recorded events", "serves_properties": []},
 ]
 
